@@ -68,7 +68,20 @@ def theorems_of(module):
         src = C.strip_comments(open(path).read())
     except FileNotFoundError:
         return []
-    return re.findall(r"^theorem\s+([A-Za-z0-9_'.]+)", src, flags=re.M)
+    # names relative to the file's outermost namespace (which the audit opens): theorems of nested namespaces
+    # (worlds of checked counterexamples and non-vacuity examples) are audited like the others
+    names, stack = [], []
+    for line in src.split("\n"):
+        m = re.match(r"^namespace\s+([A-Za-z0-9_'.]+)", line)
+        if m:
+            stack.append(m.group(1)); continue
+        m = re.match(r"^end\s+([A-Za-z0-9_'.]+)", line)
+        if m and stack and stack[-1] == m.group(1):
+            stack.pop(); continue
+        m = re.match(r"^(?:private\s+|protected\s+)?theorem\s+([A-Za-z0-9_'.]+)", line)
+        if m and not line.startswith("private"):
+            names.append(".".join(stack[1:] + [m.group(1)]))
+    return names
 
 def proof_stage(res, module, theorems, tier, extra_targets=("tbmodel",)):
     """(re)build and audit the property's theorems; fills res.obligations/discharged/build_problems"""
